@@ -177,7 +177,7 @@ class C10(Spec):
             'intervals), starts inside and on the bounds, steps landing on / crossing / away from the bounds, zero steps, '
             'rational alpha, x 3 methods; perturbed cases: an entry on its bound with a tiny outward step whose u is not exactly '
             'u0 + alpha*du (rounding); setup cases: scalar/array lower/upper/ref/ref0 with ref<ref0 and negative ref; '
-            'Newton cases: linear and cubic bounded implicit components x 2 line-search classes x 3 methods x random scalings; '
+            'exact first-Newton-iteration cases (dyadic data, +-2^j scaling, scalar/wall, BoundsEnforceLS and ArmijoGoldsteinLS with alpha in {1,1/2,1/4}); Newton cases: linear and cubic bounded implicit components x 2 line-search classes x 3 methods x random scalings; '
             'non-trivial = at least one entry changed by the enforcement')
     assumptions = ['kernels are run on Fraction object arrays through a duck-typed vector (add_scal_vec, *=, +=, asarray)',
                    'single process; print_bound_enforce off']
@@ -247,13 +247,31 @@ class C10(Spec):
                 c['rho'] = rng.choice([0.5, 0.25])
                 c['ls_maxiter'] = rng.choice([1, 3])
             cases.append(c)
+        # first Newton iteration, exact: dyadic data, scaling by +-2^j, residual x - t (identity jacobian),
+        # res_ref = 1: every float operation is exact, the physical outputs must equal the model's phys_update
+        for i in range(400 if quick else 6000):
+            method = ('scalar', 'wall')[i % 2]
+            ls = 'AG' if (i // 2) % 2 else 'BE'
+            n = rng.choice([1, 2, 3])
+            c, lo, hi, ref, ref0 = comp_case(rng, 'newton', n, True, method, ls)
+            tgt = [Fraction(rng.randrange(-40, 41), 2) for _ in range(n)]
+            c['A'] = [[Q(1 if r == k else 0) for k in range(n)] for r in range(n)]
+            c['b'] = [Q(v) for v in tgt]
+            c['cub'] = 0.0
+            c['maxiter'] = 1
+            c['res_ref'] = 1.0
+            c['exact'] = True
+            if ls == 'AG':
+                c['alpha'] = rng.choice([1.0, 0.5, 0.25])
+                c['ls_maxiter'] = 0
+            cases.append(c)
         return cases
 
     def search_gen(self, tier, rng):
         return self.gen(tier, rng)
 
     def compare_case(self, c, res):
-        return c['kind'] in ('kernel', 'setup') and res.get('res', '__none__') != '__none__'
+        return (c['kind'] in ('kernel', 'setup') or c.get('exact')) and res.get('res', '__none__') != '__none__'
 
     def got_term(self, c):
         if c['kind'] == 'kernel':
@@ -273,6 +291,18 @@ class C10(Spec):
             f = lambda v: 'None' if v is None else '(Some %s)' % qlit(v)
             return '(VL [%s])' % '; '.join('(run_setup true %s %s %s %s)' % (qlit(ref[i]), qlit(ref0[i]), f(lo[i]), f(hi[i]))
                                            for i in range(n))
+        if c['kind'] == 'newton' and c.get('exact'):
+            n = len(c['x0'])
+            lo, hi = per_entry(c['lower'], n), per_entry(c['upper'], n)
+            ref, ref0 = per_entry(c['ref'], n, Fraction(1)), per_entry(c['ref0'], n, Fraction(0))
+            f = lambda v: 'None' if v is None else '(Some %s)' % qlit(v)
+            alpha = Fraction(c.get('alpha', 1.0)) if c['ls'] == 'AG' else Fraction(1)
+            ps = []
+            for i in range(n):
+                x0 = F(c['x0'][i])
+                step = F(c['b'][i]) - x0          # Newton step of the residual x - t
+                ps.append('(mkpent %s %s %s %s %s %s)' % (qlit(x0), qlit(step), f(lo[i]), f(hi[i]), qlit(ref[i]), qlit(ref0[i])))
+            return '(vqs (phys_update %s %s [%s]))' % (MCTOR[c['method']], qlit(alpha), '; '.join(ps))
         raise ValueError(c['kind'])
 
     def nontrivial(self, c, res):
